@@ -19,9 +19,16 @@ echo "demo exit with change: $W ; without: $WO"
 /venv/bin/python -m pytest -q -p no:cacheprovider note_seq 2>&1 | tail -1 > $D/tests_with.txt
 cat $D/tests_with.txt
 cd /verif
-git -C /repo apply $D/patch.diff || { echo "patch does not apply to /repo"; exit 9; }
-./vcheck $P "$@" > $D/check_output.txt 2>&1; RC=$?
-git -C /repo checkout -- .
+git -C /repo apply --check $D/patch.diff || { echo "patch does not apply to /repo"; exit 9; }
+if [ -n "$SEED_IN_WORKTREE" ]; then
+  # same source as /repo + patch (the worktree is /repo's HEAD with the patch
+  # applied); used while a long run is reading /repo itself
+  NOTE_SEQ_REPO=$WT ./vcheck $P "$@" > $D/check_output.txt 2>&1; RC=$?
+else
+  git -C /repo apply $D/patch.diff
+  ./vcheck $P "$@" > $D/check_output.txt 2>&1; RC=$?
+  git -C /repo checkout -- .
+fi
 echo "check $P exit=$RC"
 grep -E "^VIOLATION|HARNESS-ERROR" $D/check_output.txt | head -5
 grep -E "label=" $D/check_output.txt | head -3 | cut -c1-220
